@@ -841,8 +841,16 @@ class Interp:
         if is_const(t):
             return t[1] is None
         if t[0] == "get":
-            # assumption: the mapping stores no None values
-            return not self.decide(("contains", t[2], t[1]))
+            if not self.decide(("contains", t[2], t[1])):
+                return True
+            if t[1][0] == "newdict" and not self._stores_non_none(t[1]):
+                # a mapping filled in this activation with values that may
+                # be None (a caller's table copied under converted keys):
+                # d.get(k) is None also when k maps to None
+                return self.decide(("isnone", ("index", t[1], t[2])))
+            # assumption (fields, module tables, parameters): the mapping
+            # stores no None values
+            return False
         if t[0] in ("tuple", "list", "dict", "bool", "closure", "fstr",
                     "newlist", "newdict", "binop", "slice", "copyof"):
             return False
@@ -857,6 +865,26 @@ class Interp:
                 or self._is_exception_class(t[1][1])):
             return False      # an instance just constructed
         return self.decide(("isnone", t))
+
+    def _stores_non_none(self, d):
+        """Every value this activation has stored into the local mapping d is
+        known not to be None."""
+        for e in self.path.effects:
+            if e[0] == "item-store" and e[1] == d:
+                v = e[3]
+                if is_const(v):
+                    if v[1] is None:
+                        return False
+                    continue
+                if v[0] in ("tuple", "list", "dict", "newlist", "newdict",
+                            "fstr", "closure", "binop"):
+                    continue
+                if v[0] == "call" and v[1][0] == "global" and (
+                        v[1][1] in self.m.classes
+                        or self._is_exception_class(v[1][1])):
+                    continue
+                return False
+        return True
 
     # ---------------------------------------------------------- expressions
     def fresh(self, hint):
@@ -2414,6 +2442,8 @@ def carried_state_policy(fnode):
                 g = cache[("g", fn)]
                 if g is not None and _cfg.loop_carried_names(g, loop):
                     r = "twice"
+                elif _container_carried(loop):
+                    r = "twice"
         elif isinstance(loop, ast.While):
             # a while loop runs on state its body changes: two rounds, so
             # that what the first leaves behind (an accumulator, the rest of
@@ -2422,6 +2452,36 @@ def carried_state_policy(fnode):
         cache[loop] = r
         return r
     return policy
+
+
+_MUTATORS = {"append", "add", "update", "setdefault", "extend", "insert",
+             "pop", "remove"}
+
+
+def _container_carried(loop):
+    """The loop body both writes into a local container (x[k] = v,
+    x.append(v), ...) and asks what is in it (k in x, x.get(k), ...): what
+    one iteration stores, the next one can see."""
+    written, read = set(), set()
+    for n in ast.walk(loop):
+        if isinstance(n, ast.Subscript) and isinstance(n.value, ast.Name):
+            # (a plain x[i] read does not count: positional updates of the
+            # element at the loop's own index do not meet other iterations;
+            # asking whether an entry is already there does)
+            if isinstance(n.ctx, (ast.Store, ast.Del)):
+                written.add(n.value.id)
+        elif isinstance(n, ast.Call) and isinstance(n.func, ast.Attribute) \
+                and isinstance(n.func.value, ast.Name):
+            if n.func.attr in _MUTATORS:
+                written.add(n.func.value.id)
+            if n.func.attr in ("get", "setdefault", "index", "count", "pop"):
+                read.add(n.func.value.id)
+        elif isinstance(n, ast.Compare) and any(
+                isinstance(o, (ast.In, ast.NotIn)) for o in n.ops):
+            for c in n.comparators:
+                if isinstance(c, ast.Name):
+                    read.add(c.id)
+    return bool(written & read)
 
 
 def table(paths):
